@@ -1,0 +1,31 @@
+//go:build verif
+
+package app
+
+// Add-only hooks for the verification harness of property C06 (/verif). Thin exported wrappers,
+// no change of behaviour. Only compiled with -tags verif.
+
+import (
+	m "github.com/Eyevinn/dash-mpd/mpd"
+)
+
+// VerifC06ReduceS calls reduceS.
+func VerifC06ReduceS(entries []*m.S, startNr *uint32, timescale int, periodStartS, periodEndS uint64) ([]*m.S, *uint32) {
+	return reduceS(entries, startNr, timescale, periodStartS, periodEndS)
+}
+
+// VerifC06SplitPeriod calls splitPeriod on mpd with an asset that only carries SegmentDurMS and a
+// configuration that only carries the periods-per-hour value, the MPD type flags and the
+// continuity flag; startTimeMS/nowMS are the two wrapTimes fields splitPeriod reads.
+func VerifC06SplitPeriod(mpd *m.MPD, segmentDurMS int, periodsPerHour *int, segTimeline, segTimelineNr, continuous bool,
+	startTimeMS, nowMS int) error {
+	a := &asset{SegmentDurMS: segmentDurMS}
+	cfg := &ResponseConfig{PeriodsPerHour: periodsPerHour, SegTimelineFlag: segTimeline,
+		SegTimelineNrFlag: segTimelineNr, ContMultiPeriodFlag: continuous}
+	return splitPeriod(mpd, a, cfg, wrapTimes{startTimeMS: startTimeMS, nowMS: nowMS})
+}
+
+// VerifC06LastPeriodStartTime calls lastPeriodStartTime.
+func VerifC06LastPeriodStartTime(mpd *m.MPD) (m.DateTime, error) {
+	return lastPeriodStartTime(mpd)
+}
